@@ -42,6 +42,7 @@ type Obligation struct {
 	Solver  string
 	Seconds float64
 	Model   string
+	ModelVals map[string]string
 	Detail  string
 }
 
@@ -67,6 +68,9 @@ type Ctx struct {
 	funcByID map[int]interface{}
 	strIDs   map[string]int
 
+	sizeHints  string
+	lateDecls  []string
+	queries    []Query
 	usesLambda bool
 	usesQuant  bool
 	noName     int
@@ -321,13 +325,22 @@ func (c *Ctx) Name(hint string, t Term) Term {
 	if c.noName > 0 || t.isConst || !strings.HasPrefix(t.S, "(") {
 		return t
 	}
-	if len(t.S) < 24 && !strings.Contains(t.S[1:], "(") {
-		// small flat application: still name it, cheap and keeps sharing
+	if t.Sort == SSlice && strings.HasPrefix(t.S, "(mk-slice ") {
+		// keep the constructor visible (lengths stay syntactically available); name the components instead
+		parts := splitArgs(t.S)
+		if len(parts) == 5 {
+			srt := []Sort{SRef, SBV(64), SBV(64), SBV(64)}
+			var comps []Term
+			for i := 0; i < 4; i++ {
+				comps = append(comps, c.Name(hint+"_"+[]string{"b", "o", "l", "c"}[i], atomTerm(parts[i+1], srt[i])))
+			}
+			return App(SSlice, "mk-slice", comps...)
+		}
 	}
 	c.nameCtr++
 	n := fmt.Sprintf("%s!%d", sanitize(hint), c.nameCtr)
 	c.decls = append(c.decls, fmt.Sprintf("(define-fun %s () %s %s)", n, t.Sort, t.S))
-	return Term{S: n, Sort: t.Sort}
+	return Term{S: n, Sort: t.Sort, tree: t.tree}
 }
 
 func (c *Ctx) DeclRaw(s string) { c.decls = append(c.decls, s) }
@@ -402,10 +415,17 @@ func (c *Ctx) Script(inst Instance, forModel bool, extra string) string {
 		fmt.Fprintf(&sb, "(assert %s)\n", c.assums[ai].T.S)
 		ai++
 	}
+	for _, d := range c.lateDecls {
+		sb.WriteString(d)
+		sb.WriteByte('\n')
+	}
 	fmt.Fprintf(&sb, "(assert %s)\n", inst.PC.S)
 	fmt.Fprintf(&sb, "(assert (not %s))\n", inst.Prop.S)
 	sb.WriteString(extra)
 	sb.WriteString("(check-sat)\n")
+	if forModel {
+		sb.WriteString(getValueCmd(c.queries))
+	}
 	return sb.String()
 }
 
